@@ -33,6 +33,15 @@ SHAPES = [
     ('ah', lambda it, t: [[]], 0),
 ]
 
+# receiver side only (the library's own sender declares exactly what its arguments refer to): descriptors declared in the
+# header and attached, but not referred to by any argument - the count consumed is the declared one, whatever the body
+# looks like, or whether there is a body at all
+RX_SHAPES = SHAPES + [
+    ('', lambda it, t: [], 1),
+    ('s', lambda it, t: [t], 2),
+    ('h', lambda it, t: [next(it)], 2),
+]
+
 
 class Tok:
     """A descriptor token: unique, identifies (message, position)."""
@@ -52,7 +61,7 @@ class Tok:
 def build_messages(r, nmsgs, serial0=500):
     msgs = []
     for i in range(nmsgs):
-        sig, build, nfd = r.choice(SHAPES)
+        sig, build, nfd = r.choice(RX_SHAPES)
         it = iter(range(10))
         body = build(it, 'm%d' % i)
         fields = {'path': '/a', 'member': 'M%d' % i, 'interface': 'a.b'}
